@@ -37,6 +37,9 @@ type conn struct {
 // ErrClosed represents a error.
 var ErrClosed = errors.New("network closed")
 
+// ErrTooManyRequests is returned when all the request indexes of a connection are in use.
+var ErrTooManyRequests = errors.New("too many pending requests")
+
 func dial(ctx context.Context) (net.Conn, error) {
 	u := core.GetClientContext(ctx).URL
 	var d net.Dialer
@@ -64,10 +67,19 @@ func newConn(ctx context.Context, onConnect func(net.Conn) net.Conn, onClose fun
 	}, nil
 }
 
-func (c *conn) store(index int, resultChan chan data) {
+// store registers resultChan under the next index that no pending request is using.
+// The index has only 15 bits, so the counter comes round while slow requests are still pending.
+func (c *conn) store(resultChan chan data) (index int, ok bool) {
 	c.lock.Lock()
-	c.results[index] = resultChan
-	c.lock.Unlock()
+	defer c.lock.Unlock()
+	for i := 0; i <= 0x7fff; i++ {
+		index = int(atomic.AddInt32(&c.counter, 1) & 0x7fff)
+		if _, pending := c.results[index]; !pending {
+			c.results[index] = resultChan
+			return index, true
+		}
+	}
+	return 0, false
 }
 
 func (c *conn) delete(index int) {
@@ -101,9 +113,11 @@ func (c *conn) rangeAndClean(f func(index int, resultChan chan data)) {
 }
 
 func (c *conn) Transport(ctx context.Context, request []byte) (response []byte, err error) {
-	index := int(atomic.AddInt32(&c.counter, 1) & 0x7fff)
 	resultChan := make(chan data, 1)
-	c.store(index, resultChan)
+	index, ok := c.store(resultChan)
+	if !ok {
+		return nil, ErrTooManyRequests
+	}
 	select {
 	case <-ctx.Done():
 		c.delete(index)
